@@ -1001,6 +1001,64 @@ func runSeededClockScenarios(rng *rand.Rand, n int, st *c06Stats, fail func(prop
 	}
 }
 
+// A peer whose HEAD is an object that claims the hash of an entry the destination already holds, with other
+// (validly signed) content, filed under that hash (C05): whatever the merge does, the held entry stays.
+func runHeadTwinScenarios(rng *rand.Rand, n int, st *c06Stats, fail func(prop, mon, key, detail string, c interface{})) {
+	ctx := context.Background()
+	for it := 0; it < n; it++ {
+		w := newWorld()
+		writer, _ := ipfslog.NewLog(w.api, w.idents["A"], &ipfslog.LogOptions{ID: "L"})
+		k := 2 + rng.Intn(4)
+		var es []iface.IPFSLogEntry
+		for i := 0; i < k; i++ {
+			e, err := writer.Append(ctx, []byte(fmt.Sprintf("a%d", i+1)), nil)
+			if err != nil {
+				panic(err)
+			}
+			es = append(es, e)
+		}
+		dest, _ := ipfslog.NewLog(w.api, w.idents["C"], &ipfslog.LogOptions{ID: "L"})
+		if _, err := dest.Join(writer, -1); err != nil {
+			panic(err)
+		}
+		victim := es[1+rng.Intn(k-1)] // never the genesis entry: the twin names the victim's predecessors
+		twin, err := entry.CreateEntry(ctx, w.api, w.idents["B"], &entry.Entry{LogID: "L", Payload: []byte("not " + string(victim.GetPayload())), Next: victim.GetNext(), Clock: entry.NewLamportClock(w.idents["B"].PublicKey, victim.GetClock().GetTime())}, nil)
+		if err != nil {
+			panic(err)
+		}
+		twin.SetHash(victim.GetHash())
+		m := entry.NewOrderedMap()
+		for _, e := range es {
+			if e.GetHash().Equals(victim.GetHash()) {
+				m.Set(e.GetHash().String(), twin)
+				break
+			}
+			m.Set(e.GetHash().String(), e)
+		}
+		forged, err := ipfslog.NewLog(w.api, w.idents["B"], &ipfslog.LogOptions{ID: "L", Entries: m, Heads: []iface.IPFSLogEntry{twin}})
+		if err != nil {
+			panic(err)
+		}
+		st.aliasRuns++
+		info := map[string]interface{}{"scenario": "a peer whose head claims the hash of a held entry with other content", "entries": k, "seed_iteration": it}
+		before := snapLog(dest)
+		_, _ = dest.Join(forged, -1)
+		after := snapLog(dest)
+		for hsh, ser := range before.entries {
+			if cur, ok := after.entries[hsh]; !ok {
+				fail("C05", "entries-never-vanish", "C05:entry-vanished", "a held entry vanished when a peer presented another object under its hash as its head", info)
+				break
+			} else if cur != ser {
+				fail("C05", "entries-immutable", "C05:entry-mutated", "a held entry was replaced when a peer presented another object under its hash as its head", info)
+				break
+			}
+		}
+		if !isSubsequence(before.values, after.values) {
+			fail("C05", "values-subsequence", "C05:values-not-subsequence", "the view changed when a peer presented another object under a held hash as its head", info)
+		}
+	}
+}
+
 // Logs re-opened from the store keep the access controller they are given (C06): each loader is handed a
 // controller that refuses one writer; an append by that writer and a merge bringing one of its entries must
 // both be refused, exactly as on a log created by NewLog with that controller.
